@@ -22,7 +22,7 @@ Proof. vm_compute. reflexivity. Qed.
 Definition read_cmds : list (N * N) :=
   [(6, 1); (6, 8); (6, 37); (6, 70); (6, 68); (0, 1); (0, 9); (4, 1); (4, 45); (4, 39); (4, 42);
    (12, 2); (44, 0); (44, 8); (44, 11); (44, 18); (44, 20); (44, 22); (44, 46); (44, 52); (44, 54);
-   (6, 56); (44, 15); (44, 60); (44, 37); (44, 55); (44, 1); (44, 2)].
+   (6, 56); (44, 15); (44, 60); (44, 37); (44, 55); (44, 1); (44, 2); (44, 47)].
 Definition is_read_cmd (r : request) : bool :=
   existsb (fun '(a, b) => (q_netfn r =? a) && (q_cmd r =? b)) read_cmds.
 
@@ -72,7 +72,8 @@ Definition read_samples : list (string * list (string * pv) * reply) := [
   ("get_device_guid", [], RBytes [0]);
   ("get_channel_authentication_capabilities", [arg "channel" 1; arg "priv_lvl" 4], RBytes [0]);
   ("query_rollback_status", [], RBytes [0]); ("get_dcmi_capabilities", [arg "selector" 1], RBytes [0]);
-  ("get_power_reading", [arg "mode" 1; arg "attributes" 0], RBytes [0])].
+  ("get_power_reading", [arg "mode" 1; arg "attributes" 0], RBytes [0]);
+  ("get_component_property", [arg "component_id" 0; arg "property_id" 1], RBytes [0])].
 Definition chk_read_sample (x : string * list (string * pv) * reply) : bool :=
   let '(n, a, rp) := x in
   match find_cop n with
